@@ -13,6 +13,18 @@ from .common import find_entry, interiors, rename_fields, short
 CASE_SPLIT = True     # orderings between different grid sizes are analysed case by case (regions.run_under_size_cases)
 
 
+def stepped(S, rep, what, entry):
+    """summary of a time-step kernel; a documented component that no launch writes is a violation found before execution"""
+    from .common import OutputNeverWritten
+    try:
+        return interiors(S, entry)
+    except OutputNeverWritten as ex:
+        for n in ex.names:
+            rep.ob("C20.euler", "%s %s" % (what, n), False, "the step never writes %s: it is not field + step*flux(field)" % n,
+                   key="C20.euler|%s|%s|never-written" % (what, n))
+        return None, None
+
+
 def no_scratch_dependence(rep, what, sm, names):
     """field + step*flux(field) is a function of the field, the velocity and the step only: on no cell (ring included) may the
     result contain what the caller's flux / work array held before the call"""
@@ -39,7 +51,9 @@ def run(S, tier, rep):
         flux, _ = interiors(S, find_entry("gen_advection_flux_conservative_eno3_pyst_kernel_%dd" % dim))
         for ft in fts:
             opts = {} if dim == 2 else {"field_type": ft}
-            ex, sm_ = interiors(S, find_entry("gen_advection_timestep_euler_forward_conservative_eno3_pyst_kernel_%dd" % dim, **opts))
+            ex, sm_ = stepped(S, rep, "advection %dD %s" % (dim, ft), find_entry("gen_advection_timestep_euler_forward_conservative_eno3_pyst_kernel_%dd" % dim, **opts))
+            if ex is None:
+                continue
             names = ["field"] if ft == "scalar" else [comp("vector_field", c) for c in range(dim)]
             no_scratch_dependence(rep, "advection %dD %s" % (dim, ft), sm_, names)
             for n in names:
@@ -57,7 +71,9 @@ def run(S, tier, rep):
         dflux, _ = interiors(S, find_entry("gen_diffusion_flux_pyst_kernel_%dd" % dim, reset_ghost_zone=True, **({"field_type": "scalar"} if dim == 3 else {})))
         for ft in fts:
             opts = {} if dim == 2 else {"field_type": ft}
-            ex, sm_ = interiors(S, find_entry("gen_diffusion_timestep_euler_forward_pyst_kernel_%dd" % dim, **opts))
+            ex, sm_ = stepped(S, rep, "diffusion %dD %s" % (dim, ft), find_entry("gen_diffusion_timestep_euler_forward_pyst_kernel_%dd" % dim, **opts))
+            if ex is None:
+                continue
             names = ["field"] if ft == "scalar" else [comp("vector_field", c) for c in range(dim)]
             no_scratch_dependence(rep, "diffusion %dD %s" % (dim, ft), sm_, names)
             for n in names:
